@@ -150,6 +150,20 @@ func setupRoutes(module *ast.Module, filePath string, forceInterpreter ...bool) 
 		}
 	}
 
+	// Likewise for a query parameter default that is not a plain literal
+	// (? page: int = 1 + 1): the compiled handler has no evaluator for it and
+	// would leave the parameter unbound.
+	for _, item := range module.Items {
+		if route, ok := item.(*ast.Route); ok && useCompiler {
+			for _, decl := range route.QueryParams {
+				if _, literal := evalLiteralExpr(decl.Default); decl.Default != nil && !literal {
+					printInfo(fmt.Sprintf("Query parameter %s of %s has a computed default, using interpreter mode", decl.Name, route.Path))
+					useCompiler = false
+				}
+			}
+		}
+	}
+
 	// Warn early when an LLM route has no provider configured, rather than
 	// letting every request fail with an opaque "undefined object" error.
 	if os.Getenv("GLYPH_LLM_PROVIDER") == "" && moduleInjectsLLM(module) {
